@@ -12,6 +12,25 @@ fn records(case: &Case) -> Vec<&Piece> {
     case.pieces.iter().filter(|p| p.kind == Kind::Rec).collect()
 }
 
+fn permute_members(v: &Val, rng: &mut Rng) -> Val {
+    match v {
+        Val::Obj(ms) => {
+            let mut ms: Vec<(String, Val)> = ms.iter().map(|(k, x)| (k.clone(), permute_members(x, rng))).collect();
+            if ms.len() >= 2 {
+                let i = rng.below(ms.len());
+                let j = rng.below(ms.len());
+                ms.swap(i, j);
+                if rng.chance(1, 2) {
+                    ms.reverse();
+                }
+            }
+            Val::Obj(ms)
+        }
+        Val::Arr(xs) => Val::Arr(xs.iter().map(|x| permute_members(x, rng)).collect()),
+        other => other.clone(),
+    }
+}
+
 fn stream_of(recs: &[&Piece]) -> Vec<u8> {
     let mut v = Vec::new();
     for r in recs {
@@ -29,7 +48,7 @@ impl Property for C11 {
         "exploration"
     }
     fn rule(&self) -> &'static str {
-        "A scenario = a list of up to 20 generated records (some of them redeliveries of an earlier record in a fresh, value-preserving spelling) x a stateless pipeline (--set, --split-by, --filter, --select; generated templates, documented examples, regex functions with patterns taken from the records; no & selectors) x an output style x a regex cache size in {0,1,2,64} that is the same in all runs of the scenario. Record-level transport events applied by the harness: restart of the consumer at a record boundary k (run on A[..k], then on A[k..]), redelivery and reordering (a seeded plan pi with repetitions and drops). Oracle, all from executions of the same build: H = stdout on the empty stream, body(r) = stdout on [r] minus H; stdout(A) = H + sum body(r_i) (solo-sum); stdout(A[..k]) + body part of stdout(A[k..]) = stdout(A) (restart); stdout(pi(A)) = H + sum body(r_pi(j)) (redelivery); two spellings of the same record have the same body (spelling). Comparisons are on whole byte strings. evaluations = jawk executions; non-trivial = at least 2 records and a transport event (cut strictly inside the list, or a plan that is not the identity); distinct = distinct abstract traces."
+        "A scenario = a list of up to 20 generated records - 80..220 in one scenario of ten - (some of them redeliveries of an earlier record in a fresh, value-preserving spelling, some an earlier record with its object members in another order) x a stateless pipeline (--set, --split-by, --filter, --select; generated templates, documented examples, regex functions with patterns taken from the records; no & selectors) x an output style x a regex cache size in {0,1,2,64} that is the same in all runs of the scenario. Record-level transport events applied by the harness: restart of the consumer at a record boundary k (run on A[..k], then on A[k..]), redelivery and reordering (a seeded plan pi with repetitions and drops). Oracle, all from executions of the same build: H = stdout on the empty stream, body(r) = stdout on [r] minus H; stdout(A) = H + sum body(r_i) (solo-sum); stdout(A[..k]) + body part of stdout(A[k..]) = stdout(A) (restart); stdout(pi(A)) = H + sum body(r_pi(j)) (redelivery); two spellings of the same record have the same body (spelling). Comparisons are on whole byte strings. evaluations = jawk executions; non-trivial = at least 2 records and a transport event (cut strictly inside the list, or a plan that is not the identity); distinct = distinct abstract traces."
     }
     fn assumptions(&self) -> Vec<String> {
         vec![
@@ -70,6 +89,17 @@ impl Property for C11 {
         };
         let mut vals: Vec<Val> = Vec::new();
         for i in 0..n {
+            if i > 0 && rng.chance(1, 12) {
+                // an earlier record with the members of its objects in another order: a
+                // different value (it prints differently) that compares equal member-wise
+                let j = if rng.chance(1, 2) { vals.len() - 1 } else { rng.below(vals.len()) };
+                let v = permute_members(&vals[j], rng);
+                case.pieces.push(Piece::rec(spell(&v, rng, 1), i as u32));
+                let last = case.pieces.len() - 1;
+                case.pieces[last].tag = "members-permuted".into();
+                vals.push(v);
+                continue;
+            }
             if i > 0 && rng.chance(1, 4) {
                 // redelivery of an earlier record in a fresh spelling
                 let j = rng.below(vals.len());
